@@ -71,6 +71,24 @@ pub fn run_c13<A: Cx>(d: &mut Drv<A>, scale: usize) {
     }
 }
 
+/// the standard table's lookup structures are built lazily on first use: this scenario asks for a
+/// reverse translation FIRST (a fresh process), then forward, then reverse again
+pub fn run_c14_order<A: Cx>(d: &mut Drv<A>) {
+    assert_eq!(A::NAME, "iupac");
+    let aminos = amino_codes();
+    for &aa in aminos.iter().rev() {
+        d.emit(json!({"op": "trytocodon", "aa": aa}));
+    }
+    for c in (0..4096usize).step_by(7) {
+        let t = vec![(c & 15) as u8, ((c >> 4) & 15) as u8, ((c >> 8) & 15) as u8];
+        d.emit(json!({"op": "fromsyms", "dst": 0, "c": "iupac", "via": "iter", "syms": t}));
+        d.emit(json!({"op": "trytoamino", "src": whole(0)}));
+    }
+    for &aa in &aminos {
+        d.emit(json!({"op": "trytocodon", "aa": aa}));
+    }
+}
+
 pub fn run_c14<A: Cx>(d: &mut Drv<A>, offsets: &[usize]) {
     assert_eq!(A::NAME, "iupac");
     // all 16^3 codons, laid out 16 codons per register
